@@ -1,8 +1,653 @@
 package main
 
-// tryReplay decodes a solver model for an entry-path refutation into concrete inputs and
-// runs the real function through an in-package overlay test. Returns true when the failure
-// reproduces on the real code.
+// Counterexample search and replay. For a violated obligation of function F the engine
+// re-executes F symbolically from its entry with loops unrolled (bounded mode), asks the
+// solver for models of the *observable* obligations (panics, executable postconditions),
+// decodes the inputs and runs the real code on them through an in-package test injected
+// with `go test -overlay` (nothing is written to the repository).
+
+import (
+	"bytes"
+	"context"
+	"encoding/json"
+	"fmt"
+	"go/types"
+	"os"
+	"os/exec"
+	"path/filepath"
+	"regexp"
+	"sort"
+	"strconv"
+	"strings"
+	"time"
+
+	"golang.org/x/tools/go/ssa"
+)
+
+type fnEntry struct {
+	fn  *ssa.Function
+	con *Contract
+}
+
+var observableKinds = map[string]bool{"index": true, "slice": true, "nil": true, "div": true, "typeassert": true, "nilmap": true, "panic": true, "makeslice": true, "post": true}
+
+type paramPlan struct {
+	name string
+	kind string // string | bytes | int | bool | reader
+	val  *Val
+}
+
+func planParams(fn *ssa.Function, params []*Val) ([]paramPlan, string, bool) {
+	var plans []paramPlan
+	recv := ""
+	start := 0
+	if fn.Signature.Recv() != nil {
+		rt := fn.Signature.Recv().Type()
+		if _, isPtr := rt.(*types.Pointer); isPtr {
+			return nil, "", false
+		}
+		st, ok := rt.Underlying().(*types.Struct)
+		if !ok || st.NumFields() != 0 {
+			return nil, "", false
+		}
+		recv = rt.(*types.Named).Obj().Name() + "{}."
+		start = 1
+	}
+	for i := start; i < len(fn.Params); i++ {
+		p := fn.Params[i]
+		pp := paramPlan{name: p.Name(), val: params[i]}
+		switch {
+		case isString(p.Type()):
+			pp.kind = "string"
+		case isBool(p.Type()):
+			pp.kind = "bool"
+		case isInteger(p.Type()):
+			pp.kind = "int"
+		case isSlice(p.Type()):
+			el := p.Type().Underlying().(*types.Slice).Elem()
+			if b, ok := el.Underlying().(*types.Basic); ok && b.Kind() == types.Uint8 {
+				pp.kind = "bytes"
+			} else {
+				return nil, "", false
+			}
+		case typeStrQ(p.Type()) == "io.Reader":
+			pp.kind = "reader"
+		default:
+			return nil, "", false
+		}
+		plans = append(plans, pp)
+	}
+	return plans, recv, true
+}
+
+const maxDecode = 24
+
+// tryReplay searches a reachable failing input for the function of the violated obligation
+// and replays it on the real code.
 func tryReplay(e *Engine, ob *Obligation, rec map[string]interface{}, repo, verif string) bool {
+	ent, ok := e.fnByShort[ob.Func]
+	if !ok || ent.fn == nil {
+		return false
+	}
+	if cached, ok := e.replayCache[ob.Func]; ok {
+		for k, v := range cached.rec {
+			rec[k] = v
+		}
+		return cached.ok
+	}
+	result := false
+	cache := &replayResult{rec: map[string]interface{}{}}
+	defer func() {
+		cache.ok = result
+		e.replayCache[ob.Func] = cache
+		for k, v := range cache.rec {
+			rec[k] = v
+		}
+	}()
+	deadline := time.Now().Add(90 * time.Second)
+	tried := 0
+	for k := 1; k <= 3 && time.Now().Before(deadline); k++ {
+		sub := &Engine{prog: e.prog, db: e.db, prop: e.prop, cfg: e.cfg, obls: map[string]*Obligation{}, immutableHeap: e.immutableHeap, unroll: k, axiomsDone: true, fnByShort: e.fnByShort, replayCache: e.replayCache}
+		savedBoth := e.both
+		sub.both = false
+		func() {
+			defer func() { recover() }() // path explosion etc.: give up on this bound
+			x := sub.newFnCtx(ent.fn, ent.con)
+			x.unroll = k
+			x.maxPaths = 30000
+			x.explore()
+			sub.lastParams = x.lastParams
+		}()
+		e.both = savedBoth
+		if sub.lastParams == nil {
+			continue
+		}
+		plans, recv, ok := planParams(ent.fn, sub.lastParams)
+		if !ok {
+			cache.rec["replay_note"] = "no replay template for the parameter types of " + ob.Func
+			return false
+		}
+		var names []string
+		for n := range sub.obls {
+			names = append(names, n)
+		}
+		prio := func(kind string) int {
+			switch kind {
+			case "index", "slice", "div", "nilmap", "typeassert", "makeslice":
+				return 0
+			case "post":
+				return 1
+			}
+			return 2
+		}
+		sort.Slice(names, func(a, b int) bool {
+			pa, pb := prio(sub.obls[names[a]].Kind), prio(sub.obls[names[b]].Kind)
+			if pa != pb {
+				return pa < pb
+			}
+			return names[a] < names[b]
+		})
+		// gather candidate inputs from the models of all observable obligations, then run once
+		var all []*decodedInput
+		var posts []*Obligation
+		for _, n := range names {
+			o2 := sub.obls[n]
+			if !observableKinds[o2.Kind] {
+				continue
+			}
+			got := 0
+			for _, vc := range o2.VCs {
+				if time.Now().After(deadline) || tried > 120 || got >= 4 {
+					break
+				}
+				if vc.Goal == nil {
+					continue
+				}
+				tried++
+				if inputs, ok := solveForInputs(vc, plans, filepath.Join(verif, "work", e.prop)); ok {
+					all = append(all, inputs)
+					got++
+					if o2.Kind == "post" {
+						posts = append(posts, o2)
+					}
+				}
+			}
+		}
+		if len(all) == 0 {
+			continue
+		}
+		okRun, detail := runReplay(ent.fn, recv, plans, all, posts, ob, repo, verif, e.prop)
+		if !okRun && detail != nil {
+			cache.rec["last_replay_attempt"] = detail
+		}
+		if okRun {
+			cache.rec["replay"] = detail
+			cache.rec["replay_unroll_bound"] = k
+			result = true
+			return true
+		}
+	}
+	cache.rec["replay_note"] = fmt.Sprintf("bounded search (unroll <= 3, %d candidate models) found no input that reproduces an observable failure", tried)
 	return false
+}
+
+type replayResult struct {
+	ok  bool
+	rec map[string]interface{}
+}
+
+type decodedInput struct {
+	bytes [][]byte // per data parameter
+	ints  map[string]string
+	bools map[string]bool
+}
+
+// solveForInputs asks z3 for a model of (assumptions and not goal) and decodes the parameters.
+func solveForInputs(vc *VC, plans []paramPlan, workDir string) (*decodedInput, bool) {
+	var terms []*Term
+	type slot struct {
+		plan int
+		what string
+		idx  int
+	}
+	var slots []slot
+	for pi, p := range plans {
+		switch p.kind {
+		case "string":
+			terms = append(terms, SLen(p.val.L[0]))
+			slots = append(slots, slot{pi, "len", 0})
+			for i := 0; i < maxDecode; i++ {
+				terms = append(terms, TC.mk(KApp, declStr("sat", []Sort{SStr, SInt}, SInt), SInt, []*Term{p.val.L[0], IntLit(int64(i))}, nil, nil))
+				slots = append(slots, slot{pi, "byte", i})
+			}
+		case "bytes":
+			terms = append(terms, p.val.Len())
+			slots = append(slots, slot{pi, "len", 0})
+			arr := Select(Sym("H.E:uint8", ArrSort(SInt, ArrSort(SInt, SInt))), p.val.Arr())
+			for i := 0; i < maxDecode; i++ {
+				terms = append(terms, Select(arr, Add(p.val.Off(), IntLit(int64(i)))))
+				slots = append(slots, slot{pi, "byte", i})
+			}
+		case "reader":
+			inp := App("spec.rinput", ArrSort(SInt, SInt), p.val.L[1])
+			pos0 := Select(Sym("H.$g.rpos", ArrSort(SInt, SInt)), p.val.L[1])
+			terms = append(terms, pos0)
+			slots = append(slots, slot{pi, "pos0", 0})
+			for i := 0; i < maxDecode; i++ {
+				terms = append(terms, Select(inp, Add(pos0, IntLit(int64(i)))))
+				slots = append(slots, slot{pi, "byte", i})
+			}
+		case "int":
+			terms = append(terms, p.val.L[0])
+			slots = append(slots, slot{pi, "int", 0})
+		case "bool":
+			terms = append(terms, p.val.L[0])
+			slots = append(slots, slot{pi, "bool", 0})
+		}
+	}
+	q := &Query{Assumps: vc.Assumps, Goal: vc.Goal, Comment: "counterexample search (bounded mode)"}
+	os.MkdirAll(workDir, 0o755)
+	file := filepath.Join(workDir, fmt.Sprintf("replay-%d.smt2", time.Now().UnixNano()))
+	os.WriteFile(file, []byte(q.Render(true, terms)), 0o644)
+	defer os.Remove(file)
+	ctx, cancel := context.WithTimeout(context.Background(), 12*time.Second)
+	defer cancel()
+	cmd := exec.CommandContext(ctx, "z3-new", "-T:10", file)
+	var out bytes.Buffer
+	cmd.Stdout = &out
+	cmd.Stderr = &out
+	cmd.Run()
+	txt := out.String()
+	var lines []string
+	for _, l := range strings.Split(txt, "\n") {
+		if !strings.HasPrefix(strings.TrimSpace(l), "WARNING") {
+			lines = append(lines, l)
+		}
+	}
+	txt = strings.Join(lines, "\n")
+	if !strings.HasPrefix(strings.TrimSpace(txt), "sat") {
+		return nil, false
+	}
+	vals := parseGetValue(txt)
+	if len(vals) != len(terms) {
+		return nil, false
+	}
+	di := &decodedInput{bytes: make([][]byte, len(plans)), ints: map[string]string{}, bools: map[string]bool{}}
+	lens := map[int]int{}
+	raw := map[int][]byte{}
+	for i, s := range slots {
+		v := vals[i]
+		switch s.what {
+		case "len":
+			n, err := strconv.Atoi(v)
+			if err != nil || n < 0 || n > maxDecode {
+				return nil, false // too large to decode
+			}
+			lens[s.plan] = n
+		case "pos0":
+		case "byte":
+			n, err := strconv.Atoi(v)
+			if err != nil || n < 0 || n > 255 {
+				n = 'a'
+			}
+			raw[s.plan] = append(raw[s.plan], byte(n))
+		case "int":
+			di.ints[plans[s.plan].name] = v
+		case "bool":
+			di.bools[plans[s.plan].name] = v == "true"
+		}
+	}
+	for pi, p := range plans {
+		switch p.kind {
+		case "string", "bytes":
+			di.bytes[pi] = raw[pi][:lens[pi]]
+		case "reader":
+			di.bytes[pi] = raw[pi]
+		}
+	}
+	return di, true
+}
+
+// parseGetValue extracts the values of a (get-value ...) answer in order.
+func parseGetValue(txt string) []string {
+	i := strings.Index(txt, "((")
+	if i < 0 {
+		return nil
+	}
+	s := txt[i+1:]
+	var vals []string
+	depth := 0
+	start := -1
+	for k := 0; k < len(s); k++ {
+		switch s[k] {
+		case '(':
+			if depth == 0 {
+				start = k
+			}
+			depth++
+		case ')':
+			depth--
+			if depth == 0 && start >= 0 {
+				pair := s[start+1 : k]
+				vals = append(vals, lastSexp(pair))
+				start = -1
+			}
+			if depth < 0 {
+				return vals
+			}
+		}
+	}
+	return vals
+}
+
+// lastSexp returns the last s-expression of "term value", normalising (- n) to -n.
+func lastSexp(pair string) string {
+	pair = strings.TrimSpace(pair)
+	if strings.HasSuffix(pair, ")") {
+		depth := 0
+		for k := len(pair) - 1; k >= 0; k-- {
+			if pair[k] == ')' {
+				depth++
+			}
+			if pair[k] == '(' {
+				depth--
+				if depth == 0 {
+					v := strings.TrimSpace(pair[k:])
+					if m := regexp.MustCompile(`^\(-\s*(\d+)\)$`).FindStringSubmatch(v); m != nil {
+						return "-" + m[1]
+					}
+					return v
+				}
+			}
+		}
+	}
+	f := strings.Fields(pair)
+	return f[len(f)-1]
+}
+
+func goBytes(b []byte) string {
+	var sb strings.Builder
+	sb.WriteString("\"")
+	for _, c := range b {
+		sb.WriteString(fmt.Sprintf("\\x%02x", c))
+	}
+	sb.WriteString("\"")
+	return sb.String()
+}
+
+// runReplay generates the in-package test and runs it with an overlay.
+func runReplay(fn *ssa.Function, recv string, plans []paramPlan, ins []*decodedInput, posts []*Obligation, ob *Obligation, repo, verif, prop string) (bool, map[string]interface{}) {
+	in := ins[0]
+	pkgPath := pkgOf(fn)
+	rel := strings.TrimPrefix(strings.TrimPrefix(pkgPath, repoPrefix), "/")
+	pkgDir := filepath.Join(repo, rel)
+	pkgName := fn.Pkg.Pkg.Name()
+	// the primary data parameter gets all prefixes of the decoded bytes as candidates
+	primary := -1
+	for i, p := range plans {
+		if p.kind == "string" || p.kind == "bytes" || p.kind == "reader" {
+			primary = i
+			break
+		}
+	}
+	var cands []string
+	if primary >= 0 {
+		seen := map[string]bool{}
+		add := func(b []byte) {
+			k := string(b)
+			if !seen[k] && len(cands) < 400 {
+				seen[k] = true
+				cands = append(cands, goBytes(b))
+			}
+		}
+		for _, di := range ins {
+			full := di.bytes[primary]
+			add(full)
+			if plans[primary].kind == "reader" {
+				for n := 0; n <= len(full); n++ {
+					add(full[:n])
+				}
+			}
+		}
+	} else {
+		cands = []string{"\"\""}
+	}
+	var args []string
+	usesStrings := false
+	for i, p := range plans {
+		switch p.kind {
+		case "string":
+			if i == primary {
+				args = append(args, "c")
+			} else {
+				args = append(args, goBytes(in.bytes[i]))
+			}
+		case "bytes":
+			if i == primary {
+				args = append(args, "[]byte(c)")
+			} else {
+				args = append(args, "[]byte("+goBytes(in.bytes[i])+")")
+			}
+		case "reader":
+			args = append(args, "strings.NewReader(c)")
+			usesStrings = true
+		case "int":
+			args = append(args, in.ints[p.name])
+		case "bool":
+			args = append(args, fmt.Sprintf("%v", in.bools[p.name]))
+		}
+	}
+	// results and the executable form of the violated postcondition
+	sig := fn.Signature
+	var resNames []string
+	for i := 0; i < sig.Results().Len(); i++ {
+		n := sig.Results().At(i).Name()
+		if n == "" || n == "_" {
+			n = fmt.Sprintf("r%d", i)
+		}
+		resNames = append(resNames, n)
+	}
+	postCheck := ""
+	donePost := map[string]bool{}
+	for _, po := range posts {
+		if donePost[po.Name] || !strings.HasPrefix(po.Desc, "ensures ") {
+			continue
+		}
+		donePost[po.Name] = true
+		if e, err := ParseSpecExpr(strings.TrimPrefix(po.Desc, "ensures ")); err == nil {
+			if g, ok := specToGo(e, fn, plans, resNames); ok {
+				postCheck += fmt.Sprintf("\t\t\tif !(%s) {\n\t\t\t\tfmt.Printf(\"REPRODUCED postcondition violated (%s) input=%%q\\n\", c)\n\t\t\t}\n", g, po.Name)
+			}
+		}
+	}
+	call := recv + fn.Name() + "(" + strings.Join(args, ", ") + ")"
+	assign := ""
+	if len(resNames) > 0 {
+		assign = strings.Join(resNames, ", ") + " := "
+	}
+	var use []string
+	for _, r := range resNames {
+		use = append(use, "_ = "+r)
+	}
+	imports := "\"fmt\"\n\t\"testing\"\n"
+	if usesStrings {
+		imports += "\t\"strings\"\n"
+	}
+	src := fmt.Sprintf(`package %s
+
+import (
+	%s)
+
+// generated by gowp: replay of a solver counterexample for %s
+func TestGowpReplay(t *testing.T) {
+	for _, c := range []string{%s} {
+		func() {
+			defer func() {
+				if r := recover(); r != nil {
+					fmt.Printf("REPRODUCED panic input=%%q: %%v\n", c, r)
+				}
+			}()
+			%s%s
+			%s
+%s		}()
+	}
+}
+`, pkgName, imports, ob.Name, strings.Join(cands, ", "), assign, call, strings.Join(use, "; "), postCheck)
+	work := filepath.Join(verif, "work", prop)
+	os.MkdirAll(work, 0o755)
+	testFile := filepath.Join(work, "zz_gowp_replay_test.go")
+	os.WriteFile(testFile, []byte(src), 0o644)
+	ov := map[string]map[string]string{"Replace": {filepath.Join(pkgDir, "zz_gowp_replay_test.go"): testFile}}
+	ovb, _ := json.Marshal(ov)
+	ovFile := filepath.Join(work, "replay_overlay.json")
+	os.WriteFile(ovFile, ovb, 0o644)
+	ctx, cancel := context.WithTimeout(context.Background(), 120*time.Second)
+	defer cancel()
+	argv := []string{"test", "-overlay", ovFile, "-vet=off", "-v", "-count=1", "-timeout", "60s", "-run", "^TestGowpReplay$", "./" + rel + "/"}
+	cmd := exec.CommandContext(ctx, "go", argv...)
+	cmd.Dir = repo
+	cmd.Env = append(os.Environ(), "GOFLAGS=-mod=mod", "GOPROXY=off", "GOSUMDB=off", "GOTOOLCHAIN=local")
+	var out bytes.Buffer
+	cmd.Stdout = &out
+	cmd.Stderr = &out
+	cmd.Run()
+	txt := out.String()
+	detail := map[string]interface{}{
+		"command":    "cd " + repo + " && go " + strings.Join(argv, " "),
+		"test_file":  testFile,
+		"test_source": src,
+		"output":     truncate(txt, 3000),
+	}
+	want := "REPRODUCED"
+	for _, l := range strings.Split(txt, "\n") {
+		if strings.HasPrefix(l, want) {
+			detail["reproduced"] = l
+			return true, detail
+		}
+	}
+	return false, detail
+}
+
+// specToGo translates the executable subset of the contract language to Go.
+func specToGo(e *SExpr, fn *ssa.Function, plans []paramPlan, res []string) (string, bool) {
+	names := map[string]string{}
+	for _, p := range fn.Params {
+		names[p.Name()] = p.Name()
+	}
+	for i := 0; i < fn.Signature.Results().Len(); i++ {
+		n := fn.Signature.Results().At(i).Name()
+		if n != "" {
+			names[n] = res[i]
+		}
+		names[fmt.Sprintf("result%d", i)] = res[i]
+	}
+	if len(res) == 1 {
+		names["result"] = res[0]
+	}
+	// parameters are bound to the candidate `c`
+	primaryDone := false
+	for _, p := range plans {
+		if !primaryDone && (p.kind == "string" || p.kind == "bytes") {
+			if p.kind == "string" {
+				names[p.name] = "c"
+			} else {
+				names[p.name] = "[]byte(c)"
+			}
+			primaryDone = true
+		}
+	}
+	var tr func(e *SExpr) (string, bool)
+	tr = func(e *SExpr) (string, bool) {
+		switch e.Kind {
+		case "int":
+			return e.Op, true
+		case "str":
+			return strconv.Quote(e.Op), true
+		case "ident":
+			if e.Op == "nil" || e.Op == "true" || e.Op == "false" {
+				return e.Op, true
+			}
+			if g, ok := names[e.Op]; ok {
+				return g, true
+			}
+			return "", false
+		case "un":
+			a, ok := tr(e.Args[0])
+			return "(" + e.Op + a + ")", ok
+		case "bin":
+			a, ok1 := tr(e.Args[0])
+			b, ok2 := tr(e.Args[1])
+			if !ok1 || !ok2 {
+				return "", false
+			}
+			switch e.Op {
+			case "==>":
+				return "(!(" + a + ") || (" + b + "))", true
+			case "<==>":
+				return "((" + a + ") == (" + b + "))", true
+			}
+			return "(" + a + " " + e.Op + " " + b + ")", true
+		case "index":
+			a, ok1 := tr(e.Args[0])
+			b, ok2 := tr(e.Args[1])
+			return a + "[" + b + "]", ok1 && ok2
+		case "call":
+			if e.Args[0].Kind == "ident" && e.Args[0].Op == "len" && len(e.Args) == 2 {
+				a, ok := tr(e.Args[1])
+				return "len(" + a + ")", ok
+			}
+			return "", false
+		}
+		return "", false
+	}
+	return tr(e)
+}
+
+// rerunReplay re-executes a recorded replay (./check <ID> --replay <file>): exit 1 when the
+// failure reproduces on the current tree, 0 when it does not, 3 when the file has no replay.
+func rerunReplay(file, repo, verif, prop string) int {
+	b, err := os.ReadFile(file)
+	if err != nil {
+		fmt.Println("cannot read", file, err)
+		return 3
+	}
+	var rec map[string]interface{}
+	if err := json.Unmarshal(b, &rec); err != nil {
+		fmt.Println("bad replay file:", err)
+		return 3
+	}
+	fmt.Printf("obligation: %v\nreason: %v\n", rec["obligation"], rec["reason"])
+	rp, ok := rec["replay"].(map[string]interface{})
+	if !ok {
+		fmt.Println("this violation carries no concrete input (no-failing-input-found); solver output:")
+		fmt.Println(rec["solver_output"])
+		return 3
+	}
+	src, _ := rp["test_source"].(string)
+	cmdline, _ := rp["command"].(string)
+	work := filepath.Join(verif, "work", prop)
+	os.MkdirAll(work, 0o755)
+	testFile := filepath.Join(work, "zz_gowp_replay_test.go")
+	os.WriteFile(testFile, []byte(src), 0o644)
+	// the overlay maps the generated test into the package directory named in the command
+	m := regexp.MustCompile(`\./(\S+)/$`).FindStringSubmatch(cmdline)
+	if m == nil {
+		fmt.Println("cannot find the package in the recorded command")
+		return 3
+	}
+	ov := map[string]map[string]string{"Replace": {filepath.Join(repo, m[1], "zz_gowp_replay_test.go"): testFile}}
+	ovb, _ := json.Marshal(ov)
+	ovFile := filepath.Join(work, "replay_overlay.json")
+	os.WriteFile(ovFile, ovb, 0o644)
+	cmd := exec.Command("go", "test", "-overlay", ovFile, "-vet=off", "-v", "-count=1", "-timeout", "60s", "-run", "^TestGowpReplay$", "./"+m[1]+"/")
+	cmd.Dir = repo
+	cmd.Env = append(os.Environ(), "GOFLAGS=-mod=mod", "GOPROXY=off", "GOSUMDB=off", "GOTOOLCHAIN=local")
+	out, _ := cmd.CombinedOutput()
+	fmt.Print(string(out))
+	if strings.Contains(string(out), "REPRODUCED") {
+		fmt.Printf("VIOLATION property=%s replay=%s (reproduced)\n", prop, file)
+		return 1
+	}
+	fmt.Println("the recorded input does not reproduce a failure on the current tree")
+	return 0
 }
